@@ -180,3 +180,19 @@ JOBS['C13'] = [
      'defs': {'quick': {'LL': 2, 'NLN': 2}, 'thorough': {'LL': 3, 'NLN': 2, 'SYMIC': 1}},
      'expect_reach': ['end', 'found', 'notfound'], 'timeout': {'quick': 280, 'thorough': 1700}},
 ]
+
+# ---------------------------------------------------------------- C15
+META['C15'] = {
+    'bounds': {'quick': 'buffers of 5 lines each symbolically matching or not x all ranges a,b x g and v x 13 command lists (d, s/a/b/, s/^/V/, -1d, +1d, $d, a+text, d|pu, +1s/b/a/, +1s/a/b/, nested g, s|-1d, s|$d); then u; a 509-line buffer whose line table grows (512) while a global adds lines',
+               'thorough': '6 lines; 1021-line buffer (table growth at 1024)'},
+    'outside': 'command lists outside the menu; buffers above the bound (the line-table growth during a global is covered by C01/C05 only for plain edits)',
+    'assumptions': ['a command that fails inside the list aborts the global (model: stop); the model is written from the property text over line identities'],
+}
+JOBS['C15'] = [
+    {'name': 'global', 'harness': 'c15_glob.c', 'units': 'ALL',
+     'defs': {'quick': {'NL': 5}, 'thorough': {'NL': 6}},
+     'expect_reach': ['end', 'visit', 'abort', 'changed'], 'timeout': {'quick': 280, 'thorough': 1700}},
+    {'name': 'global_table_growth', 'harness': 'c15_glob.c', 'units': 'ALL',
+     'defs': {'quick': {'NL': 509, 'BIG': 1}, 'thorough': {'NL': 1021, 'BIG': 1}},
+     'expect_reach': ['end', 'visit', 'changed'], 'timeout': {'quick': 280, 'thorough': 1700}, 'max_steps': 400000000},
+]
